@@ -22,4 +22,11 @@ MUTANTS = [
     ("point_constraints_after_dropped", SM, "            if 'r_at_tf' in [a.name() for a in symvar(e)]:\n                opti.subject_to(e, args[\"scale\"], meta=meta)", "            if 'r_at_tf' in [a.name() for a in symvar(e)] and len(symvar(e))<3:\n                opti.subject_to(e, args[\"scale\"], meta=meta)", ["C04"]),
     ("p_control_plus_final_node_last_interval", SM, "    def get_p_control_plus_at(self, stage, k=-1):\n        return veccat(*[p[k] for p in self.P_control_plus])", "    def get_p_control_plus_at(self, stage, k=-1):\n        return veccat(*[p[k if k!=-1 else -2] for p in self.P_control_plus])", ["C04"]),
     ("ss_control_constraint_last_twice", SS, "                opti.subject_to(self.eval_at_control(stage, c, -1), scale=args[\"scale\"], meta=meta)", "                opti.subject_to(self.eval_at_control(stage, c, self.N-1), scale=args[\"scale\"], meta=meta)", ["C04"]),
+    # --- C05
+    ("intc_uniform_weights", SM, "return ca.sum2(ca.diff(ca.vec(ts)).T*exprs[:,:-1])", "return ca.sum2((self.T/self.N)*exprs[:,:-1])", ["C05"]),
+    ("sum_plus_skips_last", SM, "        for k in list(range(self.N))+[-1]:\n            r = r + self.eval_at_control(stage, expr, k)\n        return r", "        for k in list(range(self.N)):\n            r = r + self.eval_at_control(stage, expr, k)\n        return r", ["C05"]),
+    ("rk_quad_weights", SM, "DT / 6 * (k1[\"quad\"] + 2 * k2[\"quad\"] + 2 * k3[\"quad\"] + k4[\"quad\"])", "DT / 6 * (k1[\"quad\"] + 2 * k2[\"quad\"] + 2 * k3[\"quad\"] + k1[\"quad\"])", ["C05"]),
+    ("dc_quad_weight_index", DC, "self.q = self.q + res[\"quad\"]*dt*self.B[j]", "self.q = self.q + res[\"quad\"]*dt*self.B[0]", ["C05"]),
+    ("at_tf_second_last", SM, "        if phase==1: return\n        return self.eval_at_control(stage, expr, -1)", "        if phase==1: return\n        return self.eval_at_control(stage, expr, self.N-1)", ["C05"]),
+    ("objective_terms_overwritten", ST, "        self._objective = self._objective + term", "        self._objective = term", ["C05"]),
 ]
